@@ -198,7 +198,9 @@ type SimDirectory struct {
 	Log   []DirOp
 	Gates bool
 	// Fault budget: any of the mutating operations may fail while > 0.
-	Faults  int
+	Faults int
+	// Slow, when set, is called before every mutating operation (harness hook: a slow state write).
+	Slow    func(kind string)
 	Journal *[]JEntry
 }
 
@@ -215,6 +217,9 @@ func NewDirectory(gates bool) *SimDirectory {
 }
 
 func (d *SimDirectory) gate(kind string) error {
+	if d.Slow != nil {
+		d.Slow(kind)
+	}
 	if d.Gates {
 		vsched.Yield("dir." + kind)
 	}
